@@ -1,4 +1,4 @@
-import Mdsort.Proofs.Header
+import Mdsort.Proofs.HeaderBlank
 import Mdsort.Model.Eval
 import Mdsort.Proofs.Captures
 
@@ -18,11 +18,14 @@ mixed-case names, 8-bit bytes and an mbox `From ` line; it EXCLUDES a NUL anywhe
 empty line, CRLF line ends (the separator line `\r` is not empty), a header line that is neither a field start
 nor a continuation, and a body that starts with an empty line (findings F16a-d; examples below).
 `Spec.read` removes the blanks after the colon, so "same value" is blind to their number
-(`message_write` normalises them to one space).  `Proofs.SetOk` (value without newline / NUL / leading
-blank, name without colon / white space / NUL) is a hypothesis on the settings.  For the `label` action - whose
-value contains the RFC 2047-DECODED existing `X-Label` of the message - it is discharged by
-`C08_label_value_safe` / `C08_label_rewrite_preserves` (after /repo 71eba6c; before it the decoded newline was
-written back).  For values built from captures it cannot be: `C08_capture_newline_breaks_rewrite`.
+(`message_write` normalises them to one space).
+
+The values being set (audit au2, after /repo 71eba6c and 4ac7c48).  `label` builds its value from the RFC 2047-DECODED
+existing `X-Label`, `add-header` / `label "\1"` from captures of decoded text: message content reaches the header being
+set.  Since 4ac7c48 `message_set_header` replaces every `'\n'` / `'\r'` of the value by a space (`Model.headerSafe`,
+`Model.setHeader`).  With that the theorems below need NO hypothesis on the value beyond "a C string":
+`C08_set_value_never_breaks_header`, `C08_rewrite_preserves_seen`, `C08_label_rewrite_preserves`,
+`C08_add_header_rewrite_preserves`.  What remains of the literal statement `C08_rewrite_preserves` is said beside it.
 -/
 
 namespace Mdsort.Props
@@ -35,21 +38,93 @@ theorem C08_parse (m : Bytes) (fs : List (Bytes × Bytes)) (b : Bytes) (h : Spec
     (sortById (parseMessage m).headers).map (·.id) = (List.range fs.length).map (· + 1) :=
   Proofs.parseMessage_eq_read m fs b h
 
-/-- Any sequence of header settings that satisfy `Proofs.SetOk`, followed by `message_write`, preserves
-everything else.  PARTIAL: the hypothesis `hk` restricts the VALUES set (no newline, no NUL, no leading blank);
-the statement without it is `C08_rewrite_preserves` below, which is false. -/
-theorem C08_rewrite_preserves_partial (m : Bytes) (kvs : List (Bytes × Bytes)) (hwf : Spec.WF m)
-    (hk : ∀ kv ∈ kvs, Proofs.SetOk kv) :
-    Spec.rewriteOk m kvs (messageWrite (Proofs.applySets (parseMessage m) kvs)).1 = true :=
-  Proofs.rewrite_preserves m kvs hwf hk
+/-! ## Any sequence of settings -/
 
-/-- The full statement the property asks for (every well-formed message, EVERY sequence of settings).  False:
-`C08_rewrite_preserves_false`. -/
+/-- **Any sequence of header settings, any C-string values.**  For every well-formed message and every sequence of
+settings `(name, value)` - names that keep the line structure (`KeyOk`), values without NUL, NOTHING else - applied by
+`message_set_header` and printed by `message_write`: `Spec.rewriteOk` accepts the file for the values a reader sees,
+`Proofs.seen (name, headerSafe value)`: every line break of the value a space, its leading blanks dropped. -/
+theorem C08_rewrite_preserves_seen (m : Bytes) (kvs : List (Bytes × Bytes)) (hwf : Spec.WF m)
+    (hk : ∀ kv ∈ kvs, Proofs.SetRes kv) :
+    Spec.rewriteOk m ((Proofs.safeKvs kvs).map Proofs.seen) (messageWrite (Proofs.applySets (parseMessage m) kvs)).1 = true :=
+  Proofs.rewrite_preserves_any m kvs hwf hk
+
+/-- The residue of the former hypothesis `SetOk`: a name that keeps the line structure, a value without NUL that does not
+BEGIN with SP, TAB, LF or CR.  (No condition on line breaks inside the value any more.) -/
+def C08_SetOk (kv : Bytes × Bytes) : Prop :=
+  Proofs.SetRes kv ∧ ∀ c, kv.2.head? = some c → c ≠ 32 ∧ c ≠ 9 ∧ c ≠ 10 ∧ c ≠ 13
+
+theorem c08_headerSafe_head (v : Bytes) (h : ∀ c, v.head? = some c → c ≠ 32 ∧ c ≠ 9 ∧ c ≠ 10 ∧ c ≠ 13) :
+    (headerSafe v).dropWhile isblank = headerSafe v := by
+  cases v with
+  | nil => rfl
+  | cons x r =>
+    obtain ⟨h1, h2, h3, h4⟩ := h x rfl
+    have e : headerSafe (x :: r) = x :: headerSafe r := by
+      unfold headerSafe
+      simp [h3, h4]
+    rw [e]
+    have : isblank x = false := by simp [isblank, h1, h2]
+    simp [this]
+
+/-- PARTIAL (as to the value written): under `C08_SetOk` the file is accepted for the settings with their line breaks
+turned into spaces (`Proofs.safeKvs`) - the set header appears exactly once with exactly that value. -/
+theorem C08_rewrite_preserves_partial (m : Bytes) (kvs : List (Bytes × Bytes)) (hwf : Spec.WF m)
+    (hk : ∀ kv ∈ kvs, C08_SetOk kv) :
+    Spec.rewriteOk m (Proofs.safeKvs kvs) (messageWrite (Proofs.applySets (parseMessage m) kvs)).1 = true := by
+  have h := C08_rewrite_preserves_seen m kvs hwf (fun kv hkv => (hk kv hkv).1)
+  have e : (Proofs.safeKvs kvs).map Proofs.seen = Proofs.safeKvs kvs := by
+    unfold Proofs.safeKvs
+    rw [List.map_map]
+    apply List.map_congr_left
+    intro kv hkv
+    simp only [Function.comp, Proofs.seen]
+    rw [c08_headerSafe_head kv.2 (hk kv hkv).2]
+  rw [e] at h; exact h
+
+/-- ... and when the values hold no LF / CR either, for the settings as they are. -/
+theorem C08_rewrite_preserves_exact (m : Bytes) (kvs : List (Bytes × Bytes)) (hwf : Spec.WF m)
+    (hk : ∀ kv ∈ kvs, C08_SetOk kv) (hnl : ∀ kv ∈ kvs, ∀ c ∈ kv.2, c ≠ 10 ∧ c ≠ 13) :
+    Spec.rewriteOk m kvs (messageWrite (Proofs.applySets (parseMessage m) kvs)).1 = true := by
+  have h := C08_rewrite_preserves_partial m kvs hwf hk
+  have e : Proofs.safeKvs kvs = kvs := by
+    unfold Proofs.safeKvs
+    conv => rhs; rw [← List.map_id kvs]
+    apply List.map_congr_left
+    intro kv hkv
+    obtain ⟨k, v⟩ := kv
+    simp only [id]
+    congr 1
+    unfold headerSafe
+    conv => rhs; rw [← List.map_id v]
+    apply List.map_congr_left
+    intro c hc
+    have := hnl (k, v) hkv c hc
+    simp [this.1, this.2]
+  rw [e] at h; exact h
+
+/-- The literal statement: every well-formed message, EVERY sequence of settings, accepted for the settings as given.
+It stays false, and exactly for these reasons (each a difference between the value given and the value a reader sees,
+never a lost field or an altered body - `C08_set_value_never_breaks_header`):
+(1) a line break in the value is written as a space (4ac7c48);
+(2) leading blanks of the value are not seen by a reader (`name:` + any number of blanks);
+(3) a NUL ends the value (every value is a C string; the model passes `cstr v`);
+(4) a NAME with a colon, white space or NUL (`add-header "a b" "v"`, `add-header "a:b" "v"`) is outside `KeyOk`: the
+    grammar does not forbid it, nothing is proved about it. -/
 def C08_rewrite_preserves : Prop :=
   ∀ (m : Bytes) (kvs : List (Bytes × Bytes)), Spec.WF m →
     Spec.rewriteOk m kvs (messageWrite (Proofs.applySets (parseMessage m) kvs)).1 = true
 
-/-! ### Non-vacuity of `WF` and `SetOk`, and what they exclude -/
+/-- Witness for (2): on `A: 1`, setting `A` to ` v` writes `A:  v`; accepted for `v`, rejected for ` v`. -/
+theorem C08_rewrite_preserves_false : ¬ C08_rewrite_preserves := by
+  intro h
+  have h1 := h (ofString "A: 1\n\nx\n") [(ofString "A", ofString " v")] (by unfold Spec.WF; decide +kernel)
+  have h2 : Spec.rewriteOk (ofString "A: 1\n\nx\n") [(ofString "A", ofString " v")]
+      (messageWrite (Proofs.applySets (parseMessage (ofString "A: 1\n\nx\n")) [(ofString "A", ofString " v")])).1 = false := by
+    decide +kernel
+  rw [h2] at h1; cases h1
+
+/-! ### Non-vacuity of `WF` and `C08_SetOk`, and what `WF` excludes -/
 
 /-- mbox line, a TAB-folded and a SP-folded value, a duplicate name in another letter case with two blanks after
 its colon, an empty line inside the body, no final newline. -/
@@ -67,23 +142,26 @@ example : Spec.read C08_sample = some
 
 theorem c08_sample_wf : Spec.WF C08_sample := by unfold Spec.WF; decide +kernel
 
-theorem c08_sampleSets_ok : ∀ kv ∈ C08_sampleSets, Proofs.SetOk kv := by
+theorem c08_sampleSets_ok : ∀ kv ∈ C08_sampleSets, C08_SetOk kv := by
   intro kv hkv
   simp only [C08_sampleSets, List.mem_cons, List.not_mem_nil, or_false] at hkv
   rcases hkv with rfl | rfl
-  · refine ⟨by decide +kernel, by decide +kernel, ?_⟩
-    show ∀ c, (ofString "old new").head? = some c → isblank c = false
+  · refine ⟨⟨by unfold Proofs.KeyOk; decide +kernel, by decide +kernel⟩, ?_⟩
+    show ∀ c, (ofString "old new").head? = some c → _
     rw [show (ofString "old new").head? = some 111 by decide +kernel]
     intro c h; cases h; decide
-  · refine ⟨by decide +kernel, by decide +kernel, ?_⟩
-    show ∀ c, (ofString "v").head? = some c → isblank c = false
+  · refine ⟨⟨by unfold Proofs.KeyOk; decide +kernel, by decide +kernel⟩, ?_⟩
+    show ∀ c, (ofString "v").head? = some c → _
     rw [show (ofString "v").head? = some 118 by decide +kernel]
     intro c h; cases h; decide
 
 /-- Both hypotheses of `C08_rewrite_preserves_partial` hold of the sample: the theorem applies. -/
 example : Spec.rewriteOk C08_sample C08_sampleSets
     (messageWrite (Proofs.applySets (parseMessage C08_sample) C08_sampleSets)).1 = true :=
-  C08_rewrite_preserves_partial _ _ c08_sample_wf c08_sampleSets_ok
+  C08_rewrite_preserves_exact _ _ c08_sample_wf c08_sampleSets_ok (by
+    intro kv hkv
+    simp only [C08_sampleSets, List.mem_cons, List.not_mem_nil, or_false] at hkv
+    rcases hkv with rfl | rfl <;> decide +kernel)
 
 /-- Outside `WF` (nothing is proved about these): CRLF line ends, a body starting with an empty line, no empty
 line at all, a line in the header block that is neither field nor continuation, a NUL. -/
@@ -92,205 +170,114 @@ example : ¬ Spec.WF (ofString "A: 1\r\n\r\nx\r\n") ∧ ¬ Spec.WF (ofString "A:
     ¬ Spec.WF [65, 58, 32, 0, 10, 10, 120] := by
   unfold Spec.WF; decide +kernel
 
-/-! ### The value `label` computes satisfies `SetOk` (after /repo 71eba6c)
+/-! ## One setting: the header block is never broken -/
 
-`match_interpolate` builds the value of `label` from the existing `X-Label` fields as `message_get_header` returns
-them, i.e. unfolded and RFC 2047-DECODED (`Model.matchInterpolate`, case `.label`).  A Q-encoded word can hold `=0A`:
-before 71eba6c the decoded newline was written back and the header block ended inside the value (found by audit au2,
-reproduced on the real binary).  Since 71eba6c every `\n` and `\r` of an existing value is copied as a space
-(`Model.labelSafe`).  Below: the hypothesis `SetOk` of `C08_rewrite_preserves_partial` is DISCHARGED for the value the
-label action computes, for every message, under a condition on the configured strings only - except for its third
-clause (no leading blank), which a message can still falsify and whose effect is stated exactly. -/
+/-- **No value can break the header block.**  For every well-formed message, every field name that keeps the line
+structure (`KeyOk`: no colon, white space or NUL - the grammar's `add-header` name and `X-Label`) and EVERY value `v` (taken as
+the C string `cstr v`, whatever bytes it holds: line breaks, CR, leading blanks, header look-alikes, captures, configured
+text): the file `message_write` prints after `message_set_header` reads back with the SAME body, exactly the original fields
+other than `k` in their order (`Spec.others`), and `k` exactly once, with the value a reader sees - line breaks as spaces,
+leading blanks dropped.  No field becomes body text, no body text becomes a field. -/
+theorem C08_set_value_never_breaks_header (m : Bytes) (k v : Bytes) (hwf : Spec.WF m) (hk : Proofs.KeyOk k) :
+    ∃ fs fs' b, Spec.read m = some (fs, b) ∧
+      Spec.read (messageWrite (setHeader (parseMessage m) k (cstr v))).1 = some (fs', b) ∧
+      Spec.others fs' [k] = Spec.others fs [k] ∧
+      (fs'.filter fun f => Spec.nameEq f.1 k).map (·.2) = [(headerSafe (cstr v)).dropWhile isblank] := by
+  have h := Proofs.rewrite_preserves_any m [(k, cstr v)] hwf (by
+    intro kv hkv; simp at hkv; subst hkv; exact ⟨hk, cstr_no_nul v⟩)
+  simp only [Proofs.applySets] at h
+  unfold Spec.rewriteOk at h
+  split at h
+  · rename_i fs b fs' b' h1 h2
+    simp only [Proofs.safeKvs, Proofs.seen, List.map_cons, List.map_nil, Bool.and_eq_true, beq_iff_eq,
+      List.all_cons, List.all_nil, Bool.and_true] at h
+    obtain ⟨⟨hb, ho⟩, hv, _⟩ := h
+    subst hb
+    refine ⟨fs, fs', b', h1, h2, ho, ?_⟩
+    rw [hv]
+    simp [Spec.lastSet, Spec.nameEq]
+  · cases h
+
+/-- Non-vacuity / what it gives on the message that broke the header block before 71eba6c and 4ac7c48: setting `X-Copy`-like
+text `a\n\nTo: evil\n\nbody` on `Subject: s` + `To: me`. -/
+example : Spec.WF (ofString "Subject: s\nTo: me\n\nbody\n") ∧ Proofs.KeyOk (ofString "Subject") ∧
+    headerSafe (cstr (ofString " a\n\nTo: evil\r\n\nbody")) = ofString " a  To: evil   body" := by
+  refine ⟨by unfold Spec.WF; decide +kernel, by unfold Proofs.KeyOk; decide +kernel, by decide +kernel⟩
+
+/-! ## `label` and `add-header` as mdsort computes their values -/
+
+theorem c08_mi_label_shape (macros : Option (List (Bytes × Bytes))) (ml : MatchList) (i : Nat) (mh : Match)
+    (msgs : Nat → Msg) (hty : mh.ty = .label) (r : Match × Option (Nat × Msg))
+    (h : matchInterpolate macros ml i mh msgs = some r) :
+    ∃ lab, r = (mh, some (mh.part, setHeader (msgs mh.part) (ofString "X-Label") (cstr lab))) := by
+  unfold matchInterpolate at h
+  simp only [hty] at h
+  generalize matchInterpolate.add _ _ _ _ = x at h
+  cases x with
+  | none => cases h
+  | some lab => exact ⟨lab, by cases h; rfl⟩
+
+theorem c08_mi_add_shape (macros : Option (List (Bytes × Bytes))) (ml : MatchList) (i : Nat) (mh : Match)
+    (msgs : Nat → Msg) (hty : mh.ty = .addHeader) (r : Match × Option (Nat × Msg))
+    (h : matchInterpolate macros ml i mh msgs = some r) :
+    ∃ v, r = (mh, some (mh.part, setHeader (msgs mh.part) mh.hkey (cstr v))) := by
+  unfold matchInterpolate at h
+  simp only [hty] at h
+  generalize interpolate _ _ _ = x at h
+  cases x with
+  | none => cases h
+  | some v => exact ⟨v, by cases h; rfl⟩
+
 
 def C08_xlabel : Bytes := ofString "X-Label"
 
-/-- The existing labels as `match_interpolate` copies them (71eba6c): every occurrence of `X-Label`, unfolded and
-RFC 2047-decoded, `\n` / `\r` replaced by a space, joined by one space. -/
-def C08_existingLabels (M : Msg) : Bytes :=
-  match getHeader M C08_xlabel with
-  | none => []
-  | some ls => ((ls.map labelSafe).intersperse [32]).flatten
-
-/-- The condition on the CONFIGURED strings of a `label` action: no `\` and no `$` (so the string is its own
-interpolation: no back-reference, no macro), no newline, no leading blank. -/
-def C08_LabelCfgOk (ss : List Bytes) : Prop :=
-  ∀ s ∈ ss, Proofs.Plain s ∧ (10 : UInt8) ∉ s ∧ ∀ c, s.head? = some c → isblank c = false
-
-theorem c08_labelSafe_no_nl (v : Bytes) : (10 : UInt8) ∉ labelSafe v := by
-  unfold labelSafe
-  intro h
-  obtain ⟨c, _, hc⟩ := List.mem_map.1 h
-  split at hc
-  · cases hc
-  · rename_i hn
-    subst hc
-    simp at hn
-
-theorem c08_mem_flatten_intersperse {α} (sep : List α) : ∀ (l : List (List α)) (x : α),
-    x ∈ (l.intersperse sep).flatten → x ∈ sep ∨ ∃ a ∈ l, x ∈ a
-  | [], x, h => by simp at h
-  | [a], x, h => by
-    simp only [List.intersperse_singleton, List.flatten_cons, List.flatten_nil, List.append_nil] at h
-    exact .inr ⟨a, by simp, h⟩
-  | a :: b :: r, x, h => by
-    simp only [List.intersperse_cons_cons, List.flatten_cons, List.mem_append] at h
-    rcases h with h | h | h
-    · exact .inr ⟨a, by simp, h⟩
-    · exact .inl h
-    · rcases c08_mem_flatten_intersperse sep (b :: r) x h with h | ⟨c, hc, hx⟩
-      · exact .inl h
-      · exact .inr ⟨c, by simp [hc], hx⟩
-
-theorem c08_existing_no_nl (M : Msg) : (10 : UInt8) ∉ C08_existingLabels M := by
-  unfold C08_existingLabels
-  split
-  · simp
-  · rename_i ls _
-    intro h
-    rcases c08_mem_flatten_intersperse _ _ _ h with h | ⟨a, ha, hx⟩
-    · simp at h
-    · obtain ⟨v, _, rfl⟩ := List.mem_map.1 ha
-      exact c08_labelSafe_no_nl v hx
-
-/-- The loop over the configured strings: with `C08_LabelCfgOk` every interpolation succeeds and returns the string. -/
-theorem c08_add_cfgOk (before : MatchList) (macros : Option (List (Bytes × Bytes))) (ss : List Bytes) (buf : Bytes)
-    (hcfg : C08_LabelCfgOk ss) (hb : (10 : UInt8) ∉ buf) :
-    ∃ r, matchInterpolate.add macros before ss buf = some r ∧ (10 : UInt8) ∉ r ∧
-      (buf ≠ [] → r.head? = buf.head?) ∧
-      (buf = [] → ∀ c, r.head? = some c → isblank c = false) := by
-  induction ss generalizing buf with
-  | nil => exact ⟨buf, rfl, hb, fun _ => rfl, fun h c hc => by subst h; cases hc⟩
-  | cons s ss ih =>
-    obtain ⟨hp, hn, hh⟩ := hcfg s (by simp)
-    have hcfg2 : C08_LabelCfgOk ss := fun t ht => hcfg t (by simp [ht])
-    unfold matchInterpolate.add
-    rw [Proofs.interpolate_plain before macros s hp]
-    by_cases hbe : buf = []
-    · subst hbe
-      obtain ⟨r, h1, h2, h3, h4⟩ := ih ([] ++ s) hcfg2 (by simpa using hn)
-      refine ⟨r, by simpa using h1, h2, fun h => absurd rfl h, fun _ c hc => ?_⟩
-      by_cases hs : s = []
-      · subst hs; exact h4 rfl c hc
-      · have := h3 (by simpa using hs)
-        rw [this] at hc
-        exact hh c (by simpa using hc)
-    · have hne : buf.isEmpty = false := by cases buf with | nil => exact absurd rfl hbe | cons _ _ => rfl
-      obtain ⟨r, h1, h2, h3, _⟩ := ih (buf ++ [32] ++ s) hcfg2 (by
-        intro h
-        simp only [List.mem_append, List.mem_singleton] at h
-        rcases h with (h | h) | h
-        · exact hb h
-        · cases h
-        · exact hn h)
-      refine ⟨r, by simpa [hne] using h1, h2, fun _ => ?_, fun h => absurd h hbe⟩
-      rw [h3 (by simp)]
-      cases buf with
-      | nil => exact absurd rfl hbe
-      | cons x xs => rfl
-
-theorem c08_cstr_head (l : Bytes) (c : UInt8) (h : (cstr l).head? = some c) : l.head? = some c := by
-  cases l with
-  | nil => simp [cstr] at h
-  | cons x r =>
-    unfold cstr at h
-    rw [List.takeWhile_cons] at h
-    split at h
-    · simpa using h
-    · cases h
-
-theorem c08_cstr_sub (l : Bytes) : ∀ c ∈ cstr l, c ∈ l := fun _ h => (List.takeWhile_sublist _).subset h
-
-/-- **What `label` sets, for EVERY message** (`msgs mh.part` is any parsed message or part - no hypothesis on it):
-under the condition on the CONFIGURED strings, `match_interpolate` succeeds and sets `X-Label` to a value `v` that
-contains no newline and no NUL; and `v` begins with a blank only if the (sanitised, decoded) existing label text
-does - which a message can still bring about (`X-Label: =?utf-8?Q?_a?=`, or an encoded leading newline, now a
-space). -/
-theorem C08_label_value_safe (macros : Option (List (Bytes × Bytes))) (ml : MatchList) (i : Nat) (mh : Match)
-    (msgs : Nat → Msg) (hty : mh.ty = .label) (hcfg : C08_LabelCfgOk mh.strings) :
-    ∃ v, matchInterpolate macros ml i mh msgs = some (mh, some (mh.part, setHeader (msgs mh.part) C08_xlabel v)) ∧
-      (∀ c ∈ v, c ≠ 10 ∧ c ≠ 0) ∧
-      (∀ c, v.head? = some c → isblank c = true → (C08_existingLabels (msgs mh.part)).head? = some c) := by
-  obtain ⟨r, h1, h2, h3, h4⟩ := c08_add_cfgOk (ml.take i) macros mh.strings (C08_existingLabels (msgs mh.part)) hcfg
-    (c08_existing_no_nl _)
-  refine ⟨cstr r, ?_, fun c hc => ⟨fun e => h2 (e ▸ c08_cstr_sub r c hc), cstr_no_nul r c hc⟩, fun c hc hb => ?_⟩
-  · unfold matchInterpolate
-    simp only [hty]
-    generalize hx : matchInterpolate.add _ _ _ _ = x
-    have hxr : x = some r := hx.symm.trans h1
-    subst hxr
-    rfl
-  · have hr := c08_cstr_head r c hc
-    by_cases he : C08_existingLabels (msgs mh.part) = []
-    · have := h4 he c hr
-      rw [this] at hb; cases hb
-    · rw [← h3 he]; exact hr
-
-/-- **`label` preserves everything else.**  For every well-formed message, every `label` entry whose configured strings
-satisfy `C08_LabelCfgOk`, whatever the match list and the macros: the entry is interpolated, the value `v` it sets
-satisfies the first two clauses of `SetOk` unconditionally, and - provided the existing label text does not begin with a
-blank (`hhead`: the first `X-Label` field, decoded, does not start with SP, TAB, CR or LF) - all of `SetOk`, so that
-`C08_rewrite_preserves_partial` applies: the file `message_write` produces is accepted by `Spec.rewriteOk`.
-When `hhead` fails nothing is lost either, but this is only evaluated, not proved in general
-(`C08_label_leading_blank_witness`: the file then reads `X-Label` with the leading blanks removed, every other field and
-the body as before); the general proof needs `Proofs.ValOk` (Proofs/HeaderReparse.lean) widened to values with leading
-blanks, through `fields_lines`, `write_read` and `chain_rewriteOk`. -/
+/-- **`label` preserves everything else - no hypothesis on the message, none on the configured strings.**  Whenever
+`match_interpolate` of a `label` entry succeeds on a well-formed message (whatever the match list, the macros, the captures
+its strings refer to, the existing `X-Label` text): the message it leaves is `message_set_header "X-Label" v` for a C string
+`v`, and the file `message_write` prints is accepted by `Spec.rewriteOk` for the value a reader sees. -/
 theorem C08_label_rewrite_preserves (m : Bytes) (hwf : Spec.WF m) (macros : Option (List (Bytes × Bytes)))
-    (ml : MatchList) (i : Nat) (mh : Match) (hty : mh.ty = .label) (hcfg : C08_LabelCfgOk mh.strings)
-    (hhead : ∀ c, (C08_existingLabels (parseMessage m)).head? = some c → isblank c = false) :
-    ∃ v, matchInterpolate macros ml i mh (fun _ => parseMessage m) =
-        some (mh, some (mh.part, setHeader (parseMessage m) C08_xlabel v)) ∧
-      Proofs.SetOk (C08_xlabel, v) ∧
-      Spec.rewriteOk m [(C08_xlabel, v)] (messageWrite (setHeader (parseMessage m) C08_xlabel v)).1 = true := by
-  obtain ⟨v, h1, h2, h3⟩ := C08_label_value_safe macros ml i mh (fun _ => parseMessage m) hty hcfg
-  have hset : Proofs.SetOk (C08_xlabel, v) := by
-    refine ⟨(by decide +kernel : ∀ c ∈ C08_xlabel, c ≠ 58 ∧ isspace c = false ∧ c ≠ 0), h2, fun c hc => ?_⟩
-    cases hb : isblank c with
-    | false => rfl
-    | true => have := hhead c (h3 c hc hb); rw [this] at hb; cases hb
-  refine ⟨v, h1, hset, ?_⟩
-  have := C08_rewrite_preserves_partial m [(C08_xlabel, v)] hwf (by intro kv hkv; simp at hkv; subst hkv; exact hset)
-  simpa [Proofs.applySets] using this
+    (ml : MatchList) (i : Nat) (mh : Match) (hty : mh.ty = .label) (r : Match × Option (Nat × Msg))
+    (h : matchInterpolate macros ml i mh (fun _ => parseMessage m) = some r) :
+    ∃ v, r = (mh, some (mh.part, setHeader (parseMessage m) C08_xlabel v)) ∧ (∀ c ∈ v, c ≠ 0) ∧
+      Spec.rewriteOk m [Proofs.seen (C08_xlabel, headerSafe v)]
+        (messageWrite (setHeader (parseMessage m) C08_xlabel v)).1 = true := by
+  obtain ⟨lab, rfl⟩ := c08_mi_label_shape macros ml i mh _ hty r h
+  refine ⟨cstr lab, rfl, cstr_no_nul lab, ?_⟩
+  have := C08_rewrite_preserves_seen m [(C08_xlabel, cstr lab)] hwf (by
+    intro kv hkv; simp at hkv; subst hkv
+    exact ⟨(by unfold Proofs.KeyOk C08_xlabel; decide +kernel : Proofs.KeyOk C08_xlabel), cstr_no_nul lab⟩)
+  simpa [Proofs.applySets, Proofs.safeKvs] using this
 
-/-- The formerly hostile message: `X-Label: =?utf-8?Q?a=0A=0AINJECTED?=`. -/
+/-- **`add-header` likewise**, for a configured NAME that keeps the line structure (`KeyOk mh.hkey`; the value may be
+anything the interpolation yields - captures with line breaks, configured text with line breaks). -/
+theorem C08_add_header_rewrite_preserves (m : Bytes) (hwf : Spec.WF m) (macros : Option (List (Bytes × Bytes)))
+    (ml : MatchList) (i : Nat) (mh : Match) (hty : mh.ty = .addHeader) (hkey : Proofs.KeyOk mh.hkey)
+    (r : Match × Option (Nat × Msg))
+    (h : matchInterpolate macros ml i mh (fun _ => parseMessage m) = some r) :
+    ∃ v, r = (mh, some (mh.part, setHeader (parseMessage m) mh.hkey v)) ∧ (∀ c ∈ v, c ≠ 0) ∧
+      Spec.rewriteOk m [Proofs.seen (mh.hkey, headerSafe v)]
+        (messageWrite (setHeader (parseMessage m) mh.hkey v)).1 = true := by
+  obtain ⟨v, rfl⟩ := c08_mi_add_shape macros ml i mh _ hty r h
+  refine ⟨cstr v, rfl, cstr_no_nul v, ?_⟩
+  have := C08_rewrite_preserves_seen m [(mh.hkey, cstr v)] hwf (by
+    intro kv hkv; simp at hkv; subst hkv
+    exact ⟨hkey, cstr_no_nul v⟩)
+  simpa [Proofs.applySets, Proofs.safeKvs] using this
+
+/-! ### Evaluated on the messages that used to break the header block -/
+
+/-- `X-Label: =?utf-8?Q?a=0A=0AINJECTED?=` (found by audit au2; repaired by 71eba6c). -/
 def C08_hostile : Bytes := ofString "X-Label: =?utf-8?Q?a=0A=0AINJECTED?=\n\nbody\n"
 
 /-- The match-list entry of `label "x"`. -/
 def C08_labelEntry : Match := { ty := .label, lno := 1, part := 0, strings := [ofString "x"] }
 
-theorem c08_hostile_wf : Spec.WF C08_hostile := by unfold Spec.WF; decide +kernel
-
-/-- Non-vacuity of `C08_label_rewrite_preserves` on it: the hypotheses hold (`C08_LabelCfgOk ["x"]`, the existing text
-`a  INJECTED` does not start with a blank), and the file written is `X-Label: a  INJECTED x` + the untouched body. -/
-example : C08_LabelCfgOk C08_labelEntry.strings ∧
-    C08_existingLabels (parseMessage C08_hostile) = ofString "a  INJECTED" ∧
+/-- `label "x"` on it writes `X-Label: a  INJECTED x`; on `X-Label: =?utf-8?Q?_a?=` (decoded ` a`) it writes
+`X-Label:  a x`, which a reader sees as `a x`: accepted for `a x`, not for ` a x`. -/
+example :
     (matchInterpolate (some []) [{ ty := .mtch, lno := 1, part := 0 }, C08_labelEntry] 1 C08_labelEntry
         (fun _ => parseMessage C08_hostile)).map (fun r => r.2.map fun p => (messageWrite p.2).1) =
-      some (some (ofString "X-Label: a  INJECTED x\n\nbody\n")) := by
-  refine ⟨?_, by decide +kernel, by decide +kernel⟩
-  intro s hs
-  simp only [C08_labelEntry, List.mem_singleton] at hs
-  subst hs
-  exact ⟨by decide +kernel, by decide +kernel, by
-    rw [show (ofString "x").head? = some 120 by decide +kernel]; intro c h; cases h; decide⟩
-
-example : ∃ v, Spec.rewriteOk C08_hostile [(C08_xlabel, v)]
-    (messageWrite (setHeader (parseMessage C08_hostile) C08_xlabel v)).1 = true := by
-  obtain ⟨v, _, _, h⟩ := C08_label_rewrite_preserves C08_hostile c08_hostile_wf (some [])
-    [{ ty := .mtch, lno := 1, part := 0 }, C08_labelEntry] 1 C08_labelEntry rfl
-    (by intro s hs
-        simp only [C08_labelEntry, List.mem_singleton] at hs
-        subst hs
-        exact ⟨by decide +kernel, by decide +kernel, by
-          rw [show (ofString "x").head? = some 120 by decide +kernel]; intro c h; cases h; decide⟩)
-    (by rw [show C08_existingLabels (parseMessage C08_hostile) = ofString "a  INJECTED" by decide +kernel,
-          show (ofString "a  INJECTED").head? = some 97 by decide +kernel]
-        intro c h; cases h; decide)
-  exact ⟨v, h⟩
-
-/-- **The leading blank, evaluated.**  `X-Label: =?utf-8?Q?_a?=` decodes to ` a`; `label "x"` sets ` a x` (not `SetOk`:
-leading blank) and writes `X-Label:  a x`.  A reader of that file sees the value `a x`: `Spec.rewriteOk` accepts the
-file for the setting `a x` and rejects it for ` a x`; the body and (here absent) other fields are untouched. -/
-theorem C08_label_leading_blank_witness :
+      some (some (ofString "X-Label: a  INJECTED x\n\nbody\n")) ∧
     (matchInterpolate (some []) [{ ty := .mtch, lno := 1, part := 0 }, C08_labelEntry] 1 C08_labelEntry
         (fun _ => parseMessage (ofString "X-Label: =?utf-8?Q?_a?=\n\nbody\n"))).map
         (fun r => r.2.map fun p => (messageWrite p.2).1) =
@@ -301,50 +288,36 @@ theorem C08_label_leading_blank_witness :
       (ofString "X-Label:  a x\n\nbody\n") = false := by
   decide +kernel
 
-/-! ### What still prevents the full statement
-
-`C08_rewrite_preserves` quantifies over ARBITRARY settings and stays false: a value with a newline breaks the header
-block, and two sources of such values remain after 71eba6c.
-(1) The configuration: a string literal may contain a newline (`add-header "K" "a<newline>b"`); not message content.
-(2) Captures: `add-header "K" "\1"` and `label "\1"` insert captured text verbatim, and a capture CAN contain a
-newline although every pattern is compiled with `REG_NEWLINE`: `.` and a non-matching list `[^x]` never match a newline,
-but a matching list (`[[:space:]]`) and a literal newline in the pattern do.  On the real binary (098cbec), message
-`Subject: =?utf-8?Q?a=0A=0Ab?=`: `match header "Subject" /(a[[:space:]]+b)/ add-header "X-Copy" "\1"` writes
-`X-Copy: a`, an empty line, `b` - header block broken, exit 0; `/(a[^x]+b)/` and `/(a.+b)/` do not match; a body
-pattern `/(line1[[:space:]]line2)/` does the same.  The model agrees (`C08_capture_newline_breaks_rewrite`). -/
-
+/-- `Subject: =?utf-8?Q?a=0A=0Ab?=` with `match header "Subject" /(a[[:space:]]+b)/ add-header "Subject" "\1"` (the capture
+holds the two line breaks; found by audit au2, repaired by 4ac7c48; one table entry so that the kernel can evaluate the
+sort): the file written is `Subject: a  b`, accepted for the value `a  b`. -/
 def C08_captureMsg : Bytes := ofString "Subject: =?utf-8?Q?a=0A=0Ab?=\n\nbody\n"
 
-/-- The match list after `match header "Subject" /(a[[:space:]]+b)/` matched the decoded value `a\n\nb`. -/
 def C08_captureBefore : MatchList :=
   [{ ty := .mtch, lno := 1, part := 0 },
    { ty := .header, lno := 1, part := 0, subs := [⟨ofString "a\n\nb", some (0, 4)⟩, ⟨ofString "a\n\nb", some (0, 4)⟩] }]
 
-/-- `add-header "Subject" "\1"` (replacing: one table entry, so that the kernel can evaluate the sort). -/
 def C08_addEntry : Match := { ty := .addHeader, lno := 1, part := 0, hkey := ofString "Subject", hval := ofString "\\1" }
 
-/-- Witness (model = real binary, with `X-Copy` there): the decoded `Subject` is `a\n\nb`; with that text as capture
-`add-header "Subject" "\1"` writes `Subject: a\n\nb\n\nbody\n`, which `Spec.rewriteOk` rejects. -/
-theorem C08_capture_newline_breaks_rewrite :
+example :
     getHeader (parseMessage C08_captureMsg) (ofString "Subject") = some [ofString "a\n\nb"] ∧
     (matchInterpolate (some []) (C08_captureBefore ++ [C08_addEntry]) 2 C08_addEntry (fun _ => parseMessage C08_captureMsg)).map
       (fun r => r.2.map fun p => (messageWrite p.2).1) =
-      some (some (ofString "Subject: a\n\nb\n\nbody\n")) ∧
-    Spec.rewriteOk C08_captureMsg [(ofString "Subject", ofString "a\n\nb")]
-      (messageWrite (Proofs.applySets (parseMessage C08_captureMsg) [(ofString "Subject", ofString "a\n\nb")])).1 = false := by
+      some (some (ofString "Subject: a  b\n\nbody\n")) ∧
+    Spec.rewriteOk C08_captureMsg [(ofString "Subject", ofString "a  b")] (ofString "Subject: a  b\n\nbody\n") = true := by
   decide +kernel
 
-theorem C08_rewrite_preserves_false : ¬ C08_rewrite_preserves := by
-  intro h
-  have h1 := h C08_captureMsg [(ofString "Subject", ofString "a\n\nb")] (by unfold Spec.WF; decide +kernel)
-  rw [C08_capture_newline_breaks_rewrite.2.2] at h1
-  cases h1
+/-- The hypotheses of `C08_add_header_rewrite_preserves` on it. -/
+example : Spec.WF C08_captureMsg ∧ C08_addEntry.ty = .addHeader ∧ Proofs.KeyOk C08_addEntry.hkey :=
+  ⟨by unfold Spec.WF; decide +kernel, rfl, by unfold Proofs.KeyOk; decide +kernel⟩
+
+/-! ## Copies and repeated writes -/
 
 /-- A copy without header settings (move across file systems, exec stdin of a part)
 has the same fields and body. -/
 theorem C08_copy_identity (m : Bytes) (hwf : Spec.WF m) :
     Spec.rewriteOk m [] (messageWrite (parseMessage m)).1 = true := by
-  simpa [Proofs.applySets] using Proofs.rewrite_preserves m [] hwf (by simp)
+  simpa [Proofs.applySets, Proofs.safeKvs] using Proofs.rewrite_preserves_any m [] hwf (by simp)
 
 /-- Non-vacuity, and what `rewriteOk m []` amounts to: `Spec.read` of the copy equals `Spec.read` of the original
 up to the blanks after a colon (the copy of `received:  c` is `received: c`). -/
@@ -357,6 +330,6 @@ proved; for settings outside `SetOk` it is false, see the witness above). -/
 theorem C08_rewrite_stable (m : Bytes) (kvs : List (Bytes × Bytes)) :
     let w := messageWrite (Proofs.applySets (parseMessage m) kvs)
     (messageWrite w.2).1 = w.1 :=
-  Proofs.second_write_same m kvs
+  Proofs.second_write_same_any m kvs
 
 end Mdsort.Props
